@@ -60,6 +60,11 @@ def register(hub, prop):
             obj, kind, snap = ent
             if obj is active or (kind == "stock" and obj.__dict__.get("lifetime_model") is active) or (kind == "lm" and getattr(active, "__dict__", {}).get("lifetime_model") is obj):
                 continue
+            if kind == "stock" and isinstance(active, fd.Stock):
+                mine = {id(active.__dict__.get(n_)) for n_ in ("stock", "inflow", "outflow")}
+                if any(id(obj.__dict__.get(n_)) in mine for n_ in ("stock", "inflow", "outflow")):
+                    drop(ent)  # the two stocks hold the very same array objects (to_stock_type hands them over): one set of data
+                    continue
             cur = _stock_results(obj) if kind == "stock" else _lm_tables(obj)
             if kind == "lm":
                 cur = {k: v for k, v in cur.items() if k in snap}  # a table built since (by the object's own stock) is no change
